@@ -92,8 +92,14 @@ theorem getRoutingKey_eq (enc : τ → ν → Enc) (m : Meta τ) (schema : Optio
       | .crash => .crash
       | .info i => createRoutingKey enc i vals := rfl
 
-/-- ONE safe step from a coherent state answers what the specification (no cache) answers, and leaves a coherent state -/
-theorem step_safe (enc : τ → ν → Enc) (s : State τ) (st : Step τ ν) (hc : Coherent s) (hs : safeStep s st = true) :
+/-- a use finds the info cached or a connection to compute it -/
+def connected (s : State τ) : Step τ ν → Bool
+  | .use k _ => s.up || (lookup k s.lru).isSome
+  | _ => true
+
+/-- ONE safe, connected step from a coherent state answers what the specification (no cache) answers, and leaves a coherent state -/
+theorem step_safe (enc : τ → ν → Enc) (s : State τ) (st : Step τ ν) (hc : Coherent s) (hs : safeStep s st = true)
+    (hcn : connected s st = true) :
     (step enc s st).1 = Spec.stepOut enc s.stmts st ∧ Coherent (step enc s st).2 ∧
       (step enc s st).2.stmts = Spec.stmtsAfter s.stmts st := by
   cases st with
@@ -121,8 +127,10 @@ theorem step_safe (enc : τ → ν → Enc) (s : State τ) (st : Step τ ν) (hc
     cases hst : s.stmts[k]? with
     | none => simp [hst] at hs
     | some st0 =>
-      simp only [hst, Bool.and_eq_true, Bool.not_eq_true', Bool.or_eq_true] at hs
-      obtain ⟨hcr, hup⟩ := hs
+      simp only [hst, Bool.not_eq_true'] at hs
+      have hcr := hs
+      simp only [connected, Bool.or_eq_true] at hcn
+      have hup := hcn
       simp only [step, Spec.stepOut, hst, Spec.stmtsAfter]
       unfold routingKeyInfoC
       cases hl : lookup k s.lru with
@@ -173,18 +181,86 @@ theorem step_safe (enc : τ → ν → Enc) (s : State τ) (st : Step τ ν) (hc
           intro p hp
           exact hc p (mem_remove_add_miss hl hp)
 
+theorem lookup_none_of {k : Nat} {l : LRU τ} (h : ∀ p ∈ l, p.1 ≠ k) : lookup k l = none := by
+  unfold lookup
+  have : l.find? (isKey k) = none := by
+    rw [List.find?_eq_none]
+    intro p hp
+    simp [isKey, h p hp]
+  simp [this]
+
+/-- a first use of a statement while no connection is available: the error, and NOTHING is cached for the statement -/
+theorem use_noconn (enc : τ → ν → Enc) (s : State τ) (k : Nat) (vals : List ν) (st0 : Stmt τ)
+    (hup : s.up = false) (hl : lookup k s.lru = none) (hst : s.stmts[k]? = some st0) :
+    (step enc s (.use k vals)).1 = some .errNoConn ∧
+    (∀ p ∈ (step enc s (.use k vals)).2.lru, p ∈ s.lru) ∧
+    (step enc s (.use k vals)).2.stmts = s.stmts ∧ (step enc s (.use k vals)).2.up = s.up := by
+  simp only [step]
+  unfold routingKeyInfoC
+  simp only [hl, hst, hup, Bool.not_false, if_true, keyOut]
+  refine ⟨by first | rfl | trivial, fun p hp => mem_remove_add_miss hl hp, by first | rfl | trivial, by first | rfl | trivial⟩
+
+/-- ONE safe step, connected or not -/
+theorem step_accepts (enc : τ → ν → Enc) (s : State τ) (st : Step τ ν) (hc : Coherent s) (hs : safeStep s st = true) :
+    Spec.accepts enc s.stmts s.up st (step enc s st).1 = true ∧ Coherent (step enc s st).2 ∧
+      (step enc s st).2.stmts = Spec.stmtsAfter s.stmts st ∧ (step enc s st).2.up = Spec.upAfter s.up st := by
+  by_cases hcn : connected s st = true
+  · obtain ⟨ho, hc', hst⟩ := step_safe enc s st hc hs hcn
+    refine ⟨by simp [Spec.accepts, ho], hc', hst, ?_⟩
+    cases st <;> first | rfl | skip
+    rename_i k vals
+    simp only [step, Spec.upAfter]
+    unfold routingKeyInfoC
+    split
+    · rfl
+    · split
+      · rfl
+      · split
+        · rfl
+        · split <;> rfl
+  · cases st with
+    | use k vals =>
+      simp only [connected, Bool.or_eq_true, not_or, Bool.not_eq_true, Option.isSome_eq_false_iff,
+        Option.isNone_iff_eq_none] at hcn
+      obtain ⟨hup, hl⟩ := hcn
+      simp only [safeStep] at hs
+      cases hst : s.stmts[k]? with
+      | none => simp [hst] at hs
+      | some st0 =>
+        obtain ⟨ho, hsub, hstm, hu⟩ := use_noconn enc s k vals st0 hup hl hst
+        refine ⟨by simp [Spec.accepts, ho, hup, Spec.isUse], ?_, by simpa [Spec.stmtsAfter] using hstm, by simpa [Spec.upAfter] using hu⟩
+        intro p hp
+        rw [hstm]
+        exact hc p (hsub p hp)
+    | useExplicit key k vals => simp [connected] at hcn
+    | useBinding k => simp [connected] at hcn
+    | batchEmpty => simp [connected] at hcn
+    | down => simp [connected] at hcn
+    | up => simp [connected] at hcn
+    | setMax n => simp [connected] at hcn
+    | change k st' => simp [connected] at hcn
+
 /-- the whole history -/
-theorem run_safe (enc : τ → ν → Enc) (steps : List (Step τ ν)) :
-    ∀ s : State τ, Coherent s → safe enc s steps = true → run enc s steps = Spec.run enc s.stmts steps := by
+theorem run_accepts (enc : τ → ν → Enc) (steps : List (Step τ ν)) :
+    ∀ s : State τ, Coherent s → safe enc s steps = true →
+      Spec.acceptsRun enc s.stmts s.up steps (run enc s steps) = true := by
   induction steps with
   | nil => intro s _ _; rfl
   | cons st rest ih =>
     intro s hc hs
     simp only [safe, Bool.and_eq_true] at hs
     obtain ⟨h1, h2⟩ := hs
-    obtain ⟨ho, hc', hst⟩ := step_safe enc s st hc h1
-    simp only [run, Spec.run]
-    rw [ho, ih _ hc' h2, hst]
+    obtain ⟨ho, hc', hst, hu⟩ := step_accepts enc s st hc h1
+    simp only [run, Spec.acceptsRun, Bool.and_eq_true]
+    refine ⟨ho, ?_⟩
+    have := ih _ hc' h2
+    rw [hst, hu] at this
+    exact this
+
+/-- while a connection is available the acceptable answer is THE specification's answer -/
+theorem accepts_up (enc : τ → ν → Enc) (stmts : List (Stmt τ)) (st : Step τ ν) (o : Option Out)
+    (h : Spec.accepts enc stmts true st o = true) : o = Spec.stepOut enc stmts st := by
+  simpa [Spec.accepts] using h
 
 /-! ### the cache is bounded -/
 
@@ -236,7 +312,12 @@ theorem step_bounded (enc : τ → ν → Enc) (s : State τ) (st : Step τ ν) 
         simp only
         have hadd := length_add_le (e := Entry.nothing) hb hl
         split
-        · simp only [setEntry, List.length_map]; exact hadd
+        · intro hm
+          have := hadd hm
+          have h2 : (remove k (add s.max k Entry.nothing s.lru)).length ≤ (add s.max k Entry.nothing s.lru).length := by
+            unfold remove; exact List.length_eraseP_le
+          simp only at this ⊢
+          omega
         · split
           · simp only [setEntry, List.length_map]; exact hadd
           · exact hadd
